@@ -29,8 +29,10 @@ type refBlob struct {
 	Entries []refEntry
 }
 
-func le16(b []byte) int    { return int(b[0]) + int(b[1])*256 }
-func le32(b []byte) uint32 { return uint32(b[0]) + uint32(b[1])<<8 + uint32(b[2])<<16 + uint32(b[3])<<24 }
+func le16(b []byte) int { return int(b[0]) + int(b[1])*256 }
+func le32(b []byte) uint32 {
+	return uint32(b[0]) + uint32(b[1])<<8 + uint32(b[2])<<16 + uint32(b[3])<<24
+}
 func le64(b []byte) uint64 { return uint64(le32(b)) + uint64(le32(b[4:]))<<32 }
 func put16(v int) []byte   { return []byte{byte(v % 256), byte(v / 256)} }
 func put32(v uint32) []byte {
